@@ -13,7 +13,7 @@ OBLIGATIONS = [
        defines={'ACYCLIC': 0, 'RAWREFS': 0, 'RECURSIVE': 0, 'OI': 0},
        what='Library::top_level == library cells referenced by no library cell; Cell::get_dependencies == direct / transitive set of referenced cells (Map<Cell*> / Map<RawCell*> by their abstract model, which C20 proves the template against)',
        bound='same library shape; for the recursive query six concrete acyclic graph shapes (chains, shared sub-cell, by-name mix) with symbolic names',
-       variants=[{'OP': 2, 'RAWREFS': r} for r in (0, 1)] + [{'OP': 3, 'RECURSIVE': 0}] + [{'OP': 3, 'RECURSIVE': 1, 'ACYCLIC': 1, 'GRAPH': g} for g in (1223, 1133, 1424, 2323, 4422, 1343)], unwind=9, timeout=400, mem_gb=10, real=False,
+       variants=[{'OP': 2, 'RAWREFS': r} for r in (0, 1)] + [{'OP': 3, 'RECURSIVE': 0}] + [{'OP': 3, 'RECURSIVE': 1, 'ACYCLIC': 1, 'GRAPH': g} for g in (1223, 1133, 1424, 2323, 4422, 1343)], unwind=9, timeout=400, mem_gb=10,
        flags=['--unwindset', '_ZNK5gdstk4Cell16get_dependenciesEbRNS_3MapIPS0_EE.recursion:4']),
 ]
 BOUNDS = 'libraries of 2 cells + 2 outside cells + 1 raw cell, 2 references per cell'
